@@ -1050,6 +1050,9 @@ def ph_params(rng, used):
             p[k] = {"S": "nosuchstep", "A": "no/such/file", "D": "src"}[k[0]]
     elif kind == "invalid":
         p = rng.choice([dict(good, **{"P 1": "x"}), {"": "x"}, dict(good, P1=1), dict(good, P2=None), dict(good, P2=["x"]),
+                        # characters that sit BETWEEN 'Z' and 'a' in ASCII: a range typo like A-z would let them through
+                        dict(good, **{"P^1": "x"}), dict(good, **{"P[0]": "x"}), dict(good, **{"P`": "x"}),
+                        dict(good, **{"P\\": "x"}), dict(good, **{"P]": "x"}), dict(good, **{"P@": "x"}), dict(good, **{"P{": "x"}),
                         ["P1"], "P1=x", 7, [], dict(good, **{"P.1": "x"}), dict(good, **{"Pé": "x"}), dict(good, **{"P1\n": "x"}),
                         True, dict(good, P1=True)])
     elif kind == "empty_dict":
@@ -1199,6 +1202,17 @@ def _snapshot(md):
 SCRIPTED_DURATION = 7.0
 
 
+def _as_passed(params, scen):
+    """the parameter set as handed to in_toto_verify: a fresh copy; for every second scenario a dict SUBCLASS with a
+    __missing__ hook (collections.defaultdict) — semantically the same set for code that expands it with ** , but a
+    placeholder without value would silently get a default if the set were used as a mapping"""
+    import collections
+    p = copy.deepcopy(params)
+    if isinstance(p, dict) and len(json.dumps(scen["root"], sort_keys=True, default=str)) % 2 == 0:
+        return collections.defaultdict(str, p)
+    return p
+
+
 def run_impl(scen, workdir, times=1, params_seq=None, scrub=False):
     """materialise and run the real in_toto_verify (in-process, clock and process execution intercepted):
     [times] (or len(params_seq)) consecutive verifications of ONE loaded metadata object.
@@ -1291,7 +1305,7 @@ def run_impl(scen, workdir, times=1, params_seq=None, scrub=False):
                         os.remove(os.path.join(cwd, fn))
             try:
                 summary = vl.in_toto_verify(md, copy.deepcopy(scen["keys"]), link_dir_path=linkdir,
-                                            substitution_parameters=copy.deepcopy(params), inspect_timeout=5,
+                                            substitution_parameters=_as_passed(params, scen), inspect_timeout=5,
                                             # the API-only option must not change what is checked (derived from the scenario, not from rng)
                                             persist_inspection_links=(len(json.dumps(scen["root"], sort_keys=True, default=str)) % 3 != 0))
                 import attr
